@@ -209,6 +209,21 @@ func snapshotFor(cg *core.ConfigGenTest, ps proxySpec, cache model.XdsCache) *sn
 			}
 			decode("RDS", rs, func() proto.Message { return &route.RouteConfiguration{} }, func(m proto.Message) { s.Routes = append(s.Routes, m.(*route.RouteConfiguration)) })
 		})
+		// The generator hands the names to BuildHTTPRoutes in map order, which differs from push to
+		// push; the answer must be well-formed under every order. All permutations up to 4 names,
+		// beyond that ascending, descending and every rotation (each ordered pair occurs both ways).
+		if s.Stage["RDS"] && len(s.RDSRequested) > 1 {
+			for _, order := range requestOrders(s.RDSRequested) {
+				var one []*route.RouteConfiguration
+				ok := guarded("RDS", &s.Crashes, func() {
+					rs, _ := cg.ConfigGen.BuildHTTPRoutes(node, req, order)
+					decode("RDS", rs, func() proto.Message { return &route.RouteConfiguration{} }, func(m proto.Message) { one = append(one, m.(*route.RouteConfiguration)) })
+				})
+				if ok {
+					s.RouteOrders = append(s.RouteOrders, routeOrder{Order: order, Routes: one})
+				}
+			}
+		}
 	}
 	if s.Stage["CDS"] {
 		s.EDSRequested = edsNamesOf(s.Clusters)
@@ -286,3 +301,42 @@ func (s *snapshot) shape() string {
 }
 
 var _ = config.Config{}
+
+// requestOrders enumerates the orders in which a set of names is handed to the generator.
+func requestOrders(sorted []string) [][]string {
+	n := len(sorted)
+	var out [][]string
+	if n <= 4 {
+		perm := make([]int, n)
+		for i := range perm {
+			perm[i] = i
+		}
+		var rec func(k int)
+		rec = func(k int) {
+			if k == n {
+				o := make([]string, n)
+				for i, p := range perm {
+					o[i] = sorted[p]
+				}
+				out = append(out, o)
+				return
+			}
+			for i := k; i < n; i++ {
+				perm[k], perm[i] = perm[i], perm[k]
+				rec(k + 1)
+				perm[k], perm[i] = perm[i], perm[k]
+			}
+		}
+		rec(0)
+		return out
+	}
+	for r := 0; r < n; r++ {
+		o := append(append([]string{}, sorted[r:]...), sorted[:r]...)
+		out = append(out, o)
+	}
+	desc := make([]string, n)
+	for i, x := range sorted {
+		desc[n-1-i] = x
+	}
+	return append(out, desc)
+}
